@@ -411,6 +411,27 @@ def part_histories(res, rng, n_tuples):
         res.count("history_bundles")
         if bad:
             continue
+        # with unity gain, no quantisation and the default curve a full window reaches both ends of the target's range: every
+        # LIVE MAPPED link is actually served, wherever it sits among unmapped and unplugged ones
+        if mc.gain == 256 and mc.quantization == 32768:
+            for i, (m, c) in enumerate(zip(mods, chosen)):
+                T, cname, ckind, lo, hi, a, b, number = c
+                if number == 0 or i in unplugged or ckind == "dependent" or {a, b} != {0, (hi - lo) if ckind == "compact" else 32768}:
+                    continue
+                ends = []
+                for v in (0, 32768):
+                    mc.value = v
+                    ends.append(_val(getattr(m, cname)))
+                res.count("full_window_endpoint_checks")
+                want_ends = [lo, hi] if a < b else [hi, lo]
+                tol = max(1, (hi - lo) // 500)      # the statement promises range and monotonicity, not exact ends: this only asks "was it served at all"
+                if abs(ends[0] - want_ends[0]) > tol or abs(ends[1] - want_ends[1]) > tol:
+                    res.violation(f"C20:not-delivered:{ckind}", f"{T}.{cname} behind a full {'normal' if a < b else 'reversed'} window receives {ends} for inputs 0 and 32768, expected {want_ends} "
+                                                              f"(slot {i} of bundle {case})", dict(case, target=i))
+                    bad = True
+                    break
+            if bad:
+                continue
         res.count("bystander_checks")
         for idx, (m, s) in enumerate(zip(everyone, snaps)):
             now = {n: _val(getattr(m, n)) for n in type(m).controllers}
@@ -433,6 +454,69 @@ def part_histories(res, rng, n_tuples):
                 break
         if ti == 0:
             res.sample(dict(case, inputs=f"{len(inputs)} sampled inputs 0..32768"))
+
+
+# ------------------------------------------------------------------ (b3) bundles across project levels
+def part_nested(res, rng, n):
+    """A MultiCtl in an outer project drives a MetaModule's exposed controller, which is mapped onto the value of a MultiCtl
+    in the embedded project, which drives a ranged target there.  Both MultiCtls may sit at the SAME position of their
+    respective projects (positions are per project).  The innermost target must follow the outermost input: in range,
+    monotone, both ends reached (within 0.2% of the span) with unity gains."""
+    import rv.api as api
+    from rv.modules import MODULE_CLASSES
+    from rv.modules.multictl import MultiCtl
+    sp = spec.load()
+    ranged = [x for x in _ranged_targets() if x[2] == "range" and x[3] == 0]
+    inputs = sorted(set(range(0, 32769, 1021)) | {0, 1, 32767, 32768})
+    for k in range(n):
+        T, cname, ckind, lo, hi = rng.choice(ranged)
+        cls = MODULE_CLASSES[sp[T].mtype]
+        inner = api.Project()
+        pads_in = rng.randint(0, 2)
+        for _ in range(pads_in):
+            inner.new_module(api.m.Amplifier)
+        target = inner.new_module(cls)
+        inner_mc = inner.new_module(MultiCtl, mappings=[(0, 32768, cls.controllers[cname].number, 0, 0, 0, 0, 0)])
+        inner_mc >> target
+        mm = api.m.MetaModule(project=inner)
+        mm.user_defined_controllers = 1
+        mm.mappings.values[0] = mm.Mapping((inner_mc.index, 0))
+        mm.update_user_defined_controllers()
+        outer = api.Project()
+        same_index = k % 2 == 0
+        pads_out = (inner_mc.index - 2) if same_index else rng.randint(0, 3)
+        outer.attach_module(mm)
+        for _ in range(max(0, pads_out)):
+            outer.new_module(api.m.Amplifier)
+        outer_mc = outer.new_module(MultiCtl, mappings=[(0, 32768, 6, 0, 0, 0, 0, 0)])      # controller 6 of a MetaModule = user_defined_1
+        outer_mc >> mm
+        case = {"part": "nested", "target": f"{T}.{cname}", "range": [lo, hi], "outer_mc_index": outer_mc.index, "inner_mc_index": inner_mc.index}
+        res.case(("nested", T, cname, outer_mc.index, inner_mc.index))
+        res.count("nested_bundles")
+        if outer_mc.index == inner_mc.index:
+            res.count("nested_bundles_same_position")
+        prev = None
+        seen = []
+        try:
+            for v in inputs:
+                outer_mc.value = v
+                got = _val(getattr(target, cname))
+                seen.append(got)
+                if got < lo or got > hi:
+                    res.violation(f"C20:out-of-range:nested:{ckind}", f"input {v}: innermost {T}.{cname} holds {got} outside [{lo},{hi}] ({case})", dict(case, input=v))
+                    break
+                if prev is not None and got < prev:
+                    res.violation("C20:not-monotone:nested", f"input {v}: innermost {T}.{cname} received {got} after {prev} ({case})", dict(case, input=v))
+                    break
+                prev = got
+            else:
+                tol = max(1, (hi - lo) // 500)          # two scalings in a row may lose a unit at the top
+                if seen[0] > lo + tol or seen[-1] < hi - tol:
+                    res.violation("C20:not-delivered:nested", f"innermost {T}.{cname} shows {seen[0]}..{seen[-1]} for inputs 0..32768, expected {lo}..{hi} ({case})", case)
+        except Exception as e:
+            res.violation(f"C20:delivery-raises:nested:{type(e).__name__}", f"driving the outer MultiCtl raised {e!r} ({case})", case)
+        res.evaluations += len(inputs)
+        res.distinct += len(inputs)
 
 
 # ------------------------------------------------------------------ (c) pure function
@@ -482,6 +566,7 @@ def run_shard(spec_, res):
     elif spec_["part"] == "drive":
         part_drive(res, rng, spec_["tuples"])
         part_histories(res, rng, spec_["tuples"] * 25)
+        part_nested(res, rng, spec_["tuples"] * 5)
     else:
         part_pure(res, rng, spec_["tuples"])
 
